@@ -301,7 +301,7 @@ def r13_1(chk):
                 continue
             sig = Sig(pm.method('Panel', cal), drop_self=True)
             mp, probs = bind(calls[0], sig)
-            got = {p: norm(a) for p, a in mp.items()}
+            got = pyrules.bound_texts(fn, mp)
             exp = {'size': 'size', 'col0': '%s.col_start' % pv}
             if 'row0' in sig.names:
                 exp['row0'] = '%s.row_start' % pv
